@@ -65,7 +65,7 @@ theorem splitColon_of_parseRange {s : List Char} {q : Nat × Nat × Nat × Nat}
   · cases h
 
 /-- what one reference of a sequence contributes: exactly the cells it denotes; a
-reference that is silently skipped (three or more parts) denotes nothing -/
+reference with three or more parts is an error -/
 theorem flatRef_denotes {ref : List Char} {o : Option (List Cell)} (h : flatRef ref = .ok o) (p : Cell) :
     p ∈ o.getD [] ↔ refHas ref p := by
   unfold flatRef at h
@@ -105,14 +105,7 @@ theorem flatRef_denotes {ref : List Char} {o : Option (List Cell)} (h : flatRef 
         · rw [splitColon_of_parseA1 hp'] at hsp; cases hsp
         · rw [hq] at hq'; cases hq'
           exact ⟨h1, h2, h3, h4⟩
-  · -- skipped
-    rename_i hne1 hne2
-    cases h
-    simp only [Option.getD_none, List.not_mem_nil, false_iff]
-    rintro (⟨c', r', hp', _⟩ | ⟨c1, r1, c2, r2, hq, _⟩)
-    · exact hne1 _ (splitColon_of_parseA1 hp')
-    · obtain ⟨a, b, hab⟩ := splitColon_of_parseRange hq
-      exact hne2 a b hab
+  · cases h
 
 theorem flatRefs_denotes {rs : List (List Char)} {cells : List Cell} (h : flatRefs rs = .ok cells)
     (p : Cell) : p ∈ cells ↔ ∃ ref ∈ rs, refHas ref p := by
@@ -130,20 +123,18 @@ theorem flatRefs_denotes {rs : List (List Char)} {cells : List Cell} (h : flatRe
         rw [List.mem_append, flatRef_denotes ho p, ih hrest]
         simp
 
-/-- acceptance of one reference: a strict cell, a strict range, or (skipped) a
-string with at least two colons -/
+/-- acceptance of one reference: exactly a strict cell or a strict range -/
 theorem flatRef_ok_iff (ref : List Char) :
     (∃ o, flatRef ref = .ok o) ↔
-      (∃ c r, parseA1 ref = some (c, r)) ∨ (∃ q, parseRangeStrict ref = some q) ∨
-        3 ≤ (splitColon ref).length := by
+      (∃ c r, parseA1 ref = some (c, r)) ∨ (∃ q, parseRangeStrict ref = some q) := by
   unfold flatRef
   split
   · rename_i a hsp
     obtain ⟨rfl, _⟩ := splitColon_single hsp
     cases hd : cellNameToCoordinates ref with
     | error e =>
-      simp only [false_iff, reduceCtorEq, exists_false, not_or, not_exists, hsp, List.length_singleton]
-      refine ⟨?_, ?_, by omega⟩
+      simp only [false_iff, reduceCtorEq, exists_false, not_or, not_exists]
+      refine ⟨?_, ?_⟩
       · intro c r hp
         have := decode_of_shape (shape_of_parseA1 hp)
         rw [hd] at this; cases this
@@ -156,9 +147,8 @@ theorem flatRef_ok_iff (ref : List Char) :
   · rename_i a b hsp
     cases hd : rangeRefToCoordinates ref with
     | error e =>
-      simp only [false_iff, reduceCtorEq, exists_false, not_or, not_exists, hsp, List.length_cons,
-        List.length_nil]
-      refine ⟨?_, ?_, by omega⟩
+      simp only [false_iff, reduceCtorEq, exists_false, not_or, not_exists]
+      refine ⟨?_, ?_⟩
       · intro c r hp
         rw [splitColon_of_parseA1 hp] at hsp; cases hsp
       · intro q hq
@@ -169,16 +159,15 @@ theorem flatRef_ok_iff (ref : List Char) :
     | ok q =>
       obtain ⟨c1, r1, c2, r2⟩ := q
       obtain ⟨n1, m1, n2, m2, _, _, _, _, hs⟩ := (rangeRef_ok_iff ref _ _ _ _).mp hd
-      exact ⟨fun _ => Or.inr (Or.inl ⟨_, (parseRangeStrict_iff ref n1 m1 n2 m2).mpr hs⟩),
+      exact ⟨fun _ => Or.inr ⟨_, (parseRangeStrict_iff ref n1 m1 n2 m2).mpr hs⟩,
         fun _ => ⟨_, rfl⟩⟩
   · rename_i hne1 hne2
-    refine ⟨fun _ => Or.inr (Or.inr ?_), fun _ => ⟨_, rfl⟩⟩
-    have hnn : splitColon ref ≠ [] := by unfold splitColon; exact splitColonAux_ne_nil [] ref
-    match hl : splitColon ref with
-    | [] => exact absurd hl hnn
-    | [a] => exact absurd hl (hne1 a)
-    | [a, b] => exact absurd hl (hne2 a b)
-    | _ :: _ :: _ :: _ => simp
+    simp only [false_iff, reduceCtorEq, exists_false, not_or, not_exists]
+    refine ⟨?_, ?_⟩
+    · intro c r hp; exact hne1 _ (splitColon_of_parseA1 hp)
+    · intro q hq
+      obtain ⟨a, b, hab⟩ := splitColon_of_parseRange hq
+      exact hne2 a b hab
 
 theorem flatRefs_ok_iff (rs : List (List Char)) :
     (∃ cells, flatRefs rs = .ok cells) ↔ ∀ ref ∈ rs, ∃ o, flatRef ref = .ok o := by
@@ -355,5 +344,29 @@ theorem countColon_strict {ref : List Char} {c1 r1 c2 r2 : Nat} (h : RangeStrict
   rw [List.filter_append, List.filter_cons, List.length_append]
   simp only [hc, if_true, List.length_cons]
   omega
+
+theorem colname_nocolon {a : List Char} {x : Int} (h : columnNameToNumber a = .ok x) :
+    ∀ c ∈ a, isColon c = false := by
+  obtain ⟨_, v, hv, _, _⟩ := (columnNameToNumber_ok_iff a x).mp h
+  intro c hc
+  exact isLetter_not_colon (colRawAux_some_letters hv c hc)
+
+/-- on a well-formed merged-cell list the scan never fails -/
+theorem redirectScan_total (p : Cell) (canon : List Char) (ms : List (List Char))
+    (h : ∀ ref ∈ ms, ∃ c1 r1 c2 r2, RangeStrict ref c1 r1 c2 r2) :
+    ∃ a, redirectScan p canon ms = .ok a := by
+  induction ms with
+  | nil => exact ⟨canon, rfl⟩
+  | cons ref rest ih =>
+    obtain ⟨c1, r1, c2, r2, hs⟩ := h ref (by simp)
+    have ih' := ih (fun x hx => h x (by simp [hx]))
+    have hdec := (rangeRef_ok_iff ref _ _ _ _).mpr ⟨c1, r1, c2, r2, rfl, rfl, rfl, rfl, hs⟩
+    simp only [redirectScan]
+    by_cases he : ref.isEmpty = true
+    · simp only [he, if_true]; exact ih'
+    · simp only [he, Bool.false_eq_true, if_false, countColon_strict hs, bne_self_eq_false, hdec]
+      by_cases hin : cellInRange p (sortCoordinates ((c1 : Int), (r1 : Int), (c2 : Int), (r2 : Int))) = true
+      · simp only [hin, if_true]; exact ⟨_, rfl⟩
+      · simp only [hin, Bool.false_eq_true, if_false]; exact ih'
 
 end XlModel.Ref
